@@ -4832,11 +4832,14 @@ namespace jsoncons {
                 case json_storage_kind::object:
                 {
                     visitor.begin_object(size(), tag(), context, ec);
+                    if (JSONCONS_UNLIKELY(ec)) {return;} // e.g. max_nesting_depth_exceeded: the visitor has not opened the container
                     const object& o = cast<object_storage>().value();
                     for (auto it = o.begin(); it != o.end(); ++it)
                     {
                         visitor.key(string_view_type(((*it).key()).data(),(*it).key().length()), context, ec);
+                        if (JSONCONS_UNLIKELY(ec)) {return;}
                         (*it).value().dump_noflush(visitor, ec);
+                        if (JSONCONS_UNLIKELY(ec)) {return;}
                     }
                     visitor.end_object(context, ec);
                     break;
@@ -4844,10 +4847,12 @@ namespace jsoncons {
                 case json_storage_kind::array:
                 {
                     visitor.begin_array(size(), tag(), context, ec);
+                    if (JSONCONS_UNLIKELY(ec)) {return;}
                     const array& o = cast<array_storage>().value();
                     for (const_array_iterator it = o.begin(); it != o.end(); ++it)
                     {
                         (*it).dump_noflush(visitor, ec);
+                        if (JSONCONS_UNLIKELY(ec)) {return;}
                     }
                     visitor.end_array(context, ec);
                     break;
@@ -4907,6 +4912,10 @@ namespace jsoncons {
                 case json_storage_kind::object:
                 {
                     visitor.begin_object(size(), tag(), context, ec);
+                    if (JSONCONS_UNLIKELY(ec))
+                    {
+                        return write_result{unexpect, ec};
+                    }
                     const object& o = cast<object_storage>().value();
                     for (auto it = o.begin(); it != o.end(); ++it)
                     {
@@ -4927,6 +4936,10 @@ namespace jsoncons {
                 case json_storage_kind::array:
                 {
                     visitor.begin_array(size(), tag(), context, ec);
+                    if (JSONCONS_UNLIKELY(ec))
+                    {
+                        return write_result{unexpect, ec};
+                    }
                     const array& o = cast<array_storage>().value();
                     for (const_array_iterator it = o.begin(); it != o.end(); ++it)
                     {
